@@ -72,7 +72,7 @@ class Layout:
 
 
 def build(tables, file_objects=None, *, hdr_seqs=(2, 1), sigs=None, version=0x400, extra_objects=(), objtab_chain=False,
-          table_size=0x1000, more_objtabs=None, stale_header_differs=True, chain=1, chain_rng=None, more_sigs=None):
+          table_size=0x1000, more_objtabs=None, stale_header_differs=True, chain=1, chain_rng=None, more_sigs=None, alignment=ALIGN):
     """tables: list of {"idx", "seq", "entries": [bytes...]} in object-table order (entries already encoded, with resolved
     parent offsets).  file_objects: {offset_placeholder_key: bytes} handled by the caller through Layout.
     Returns bytes."""
@@ -122,12 +122,17 @@ def build(tables, file_objects=None, *, hdr_seqs=(2, 1), sigs=None, version=0x40
         for typ, o2, size, alloc in ents:
             t += struct.pack("<BIQIB", typ, 0x1234, o2, size, alloc)
         out[off] = t if off < 0x2000 else t.ljust(0x1000, b"\0")   # below 0x2000: in the slack behind the second header copy
-    out[0x3000] = replay_log(sig=sigs.get("replay", SIG_REPLAY))
+    log_off = 0x3000
+    if len(ot) > 0x1000:
+        # the first object table runs over the page the replay log usually has: the log (located by the header) lives behind everything
+        log_off = -(-max(o + len(b) for o, b in out.items()) // 0x1000) * 0x1000 + 0x1000
+    out[log_off] = replay_log(sig=sigs.get("replay", SIG_REPLAY)).ljust(0x1000, b"\0")
     # the header copy with the lower sequence number is stale: its replay log pointer leads nowhere (a reader that picks it fails)
-    lo1 = 0x3000 if (hdr_seqs[0] >= hdr_seqs[1] or not stale_header_differs) else 0x3800
-    lo2 = 0x3000 if (hdr_seqs[1] >= hdr_seqs[0] or not stale_header_differs) else 0x3800
-    out[0] = file_header(hdr_seqs[0], sig=sigs.get("head1", SIG_HEADER), version=version, log_off=lo1)
-    out[0x1000] = file_header(hdr_seqs[1], sig=sigs.get("head2", SIG_HEADER), version=version, log_off=lo2)
+    lo1 = log_off if (hdr_seqs[0] >= hdr_seqs[1] or not stale_header_differs) else log_off + 0x800
+    lo2 = log_off if (hdr_seqs[1] >= hdr_seqs[0] or not stale_header_differs) else log_off + 0x800
+    # alignment: the allocation unit the writer used; decoding does not depend on it
+    out[0] = file_header(hdr_seqs[0], sig=sigs.get("head1", SIG_HEADER), version=version, log_off=lo1, alignment=alignment)
+    out[0x1000] = file_header(hdr_seqs[1], sig=sigs.get("head2", SIG_HEADER), version=version, log_off=lo2, alignment=alignment)
     end = max(o + len(b) for o, b in out.items())
     if end > (1 << 30):
         # objects far into the file (file objects / key tables beyond 4 GiB): a sparse virtual file instead of bytes
